@@ -796,6 +796,14 @@ func (eval Evaluator) MulRelin(op0 *rlwe.Ciphertext, op1 rlwe.Operand, opOut *rl
 
 func (eval Evaluator) mulRelin(op0 *rlwe.Ciphertext, op1 *rlwe.Element[ring.Poly], relin bool, opOut *rlwe.Ciphertext) (err error) {
 
+	// The relinearisation key is looked up before anything is written: a missing key must leave the receiver intact
+	var rlk *rlwe.RelinearizationKey
+	if relin && op0.Degree() == 1 && op1.Degree() == 1 {
+		if rlk, err = eval.CheckAndGetRelinearizationKey(); err != nil {
+			return fmt.Errorf("cannot MulRelin: Relinearize: %w", err)
+		}
+	}
+
 	level := opOut.Level()
 
 	opOut.Scale = op0.Scale.Mul(op1.Scale)
@@ -847,12 +855,6 @@ func (eval Evaluator) mulRelin(op0 *rlwe.Ciphertext, op1 *rlwe.Element[ring.Poly
 		}
 
 		if relin {
-
-			var rlk *rlwe.RelinearizationKey
-			var err error
-			if rlk, err = eval.CheckAndGetRelinearizationKey(); err != nil {
-				return fmt.Errorf("cannot MulRelin: Relinearize: %w", err)
-			}
 
 			tmpCt := &rlwe.Ciphertext{}
 			tmpCt.Value = []ring.Poly{eval.BuffQP[1].Q, eval.BuffQP[2].Q}
@@ -1116,6 +1118,14 @@ func (eval Evaluator) MulRelinThenAdd(op0 *rlwe.Ciphertext, op1 rlwe.Operand, op
 
 func (eval Evaluator) mulRelinThenAdd(op0 *rlwe.Ciphertext, op1 *rlwe.Element[ring.Poly], relin bool, opOut *rlwe.Ciphertext) (err error) {
 
+	// The relinearisation key is looked up before anything is written: a missing key must leave the receiver intact
+	var rlk *rlwe.RelinearizationKey
+	if relin && op0.Degree() == 1 && op1.Degree() == 1 {
+		if rlk, err = eval.CheckAndGetRelinearizationKey(); err != nil {
+			return fmt.Errorf("cannot relinearize: %w", err)
+		}
+	}
+
 	level := opOut.Level()
 
 	resScale := op0.Scale.Mul(op1.Scale)
@@ -1163,12 +1173,6 @@ func (eval Evaluator) mulRelinThenAdd(op0 *rlwe.Ciphertext, op1 *rlwe.Element[ri
 		ringQ.MulCoeffsMontgomeryThenAdd(c01, tmp1.Value[0], c1) // c1 += c[1]*c[0]
 
 		if relin {
-
-			var rlk *rlwe.RelinearizationKey
-			var err error
-			if rlk, err = eval.CheckAndGetRelinearizationKey(); err != nil {
-				return fmt.Errorf("cannot relinearize: %w", err)
-			}
 
 			ringQ.MulCoeffsMontgomery(c01, tmp1.Value[1], c2) // c2 += c[1]*c[1]
 
